@@ -514,3 +514,8 @@ func authHoldersByTypes(c *core.Ctx, _ []string) []string {
 	sort.Strings(out)
 	return out
 }
+
+func structOf(nt *types.Named) *types.Struct {
+	st, _ := nt.Underlying().(*types.Struct)
+	return st
+}
